@@ -177,6 +177,13 @@ def run(ctx):
     from engine.run import borrow
     borrow(ctx, 'C16', ['OWN-OVERWRITE'], 'a PEAK record parsed from the file that is overwritten by a fresh, zeroed one loses the maxima of the earlier sessions')
 
+    ctx.rule('SEEK-CAP', 'every function installed in the seek slot either has a successful exit for offsets other than 0, or (rewind-only: it ignores its offset, or all its successful returns are '
+             'taken for offset == 0) its codec\'s init sets psf->sf.seekable = SF_FALSE: the SFC_CALC_* commands refuse a non-seekable handle, and on a handle that claims to be seekable their '
+             'restoring sf_seek (position) must be able to succeed - otherwise the query leaves the read position at the end of the data', floor=10)
+    from engine.seekcap import seek_cap
+    n_sc = seek_cap(ctx, prog)
+    ctx.require(n_sc >= 10, 'only %d seek hooks found' % n_sc)
+
 
 def _same_loop(f, a, b):
     la = [x['id'] for x in f.ancestors(a) if x['k'] in ('WhileStmt', 'ForStmt')]
